@@ -60,6 +60,10 @@ long vs_lock_ops(void);
 // condition variables (simulated: wait = unlock + block until notified + relock; timed waits expire when the
 // simulated clock has nothing else to run): waits, notifies, notifies that found no waiter, expired timed waits
 void vs_cv_stats(long* waits, long* notifies, long* empty_notifies, long* timeouts);
+// fault: up to k waits of the run return without a notification (spurious wake-up, legal for every condition variable);
+// which ones is a scheduling decision (a waiter is a candidate of the scheduler while the budget lasts) and replays with it
+void vs_set_cv_spurious(int k);
+long vs_cv_spurious_fired(void);
 long vs_steps(void);
 uint64_t vs_event_hash(void);
 long vs_switches(void);
